@@ -2,6 +2,7 @@ import Yaql.Drv.Util
 import Yaql.Model.Resolve
 import Yaql.Model.ResolveCtx
 import Yaql.Model.Interface
+import Yaql.Model.Invoke
 import Yaql.Model.Signature
 /-! Driver for the overload-resolution model (C05, C06, C11, C12): decodes overload
 families, class graphs and calls, runs `Yaql.Resolve.resolve` (or `resolveOld`-free
@@ -239,7 +240,32 @@ def runSig (k : Consts) (j : Json) : Json :=
       | .error .duplicate => jo [("err", js "duplicate")]
       | .error .noParameterFound => jo [("err", js "noParameterFound")]
 
+/-- the tag of the value an argument slot carries, if it is an evaluated value or a constant -/
+def argTag : Arg → Option Nat
+  | .value (.obj _ _ t) => some t
+  | .const (.obj _ _ t) _ _ _ => some t
+  | _ => none
+
+def slotTag : Slot → Option Nat
+  | .arg a => argTag a
+  | .hid _ => none
+
+/-- `picky`: per overload `[fid, [positions], [keyword keys], star]` - the parameters whose smart type validates the
+    value in `convert`; `rejected`: the tags it turns down -/
+def convOf (picky : List Json) (rejected : List Nat) : Conv := fun i b =>
+  let bad := fun (t : Option Nat) => match t with | some t => rejected.contains t | none => false
+  picky.all fun row =>
+    match asArr row with
+    | [fid, ps, ks, star] =>
+        if asNat fid != i then true
+        else
+          (asArr ps).all (fun p => !bad ((b.pos.getD (asNat p) none).bind slotTag)) &&
+          (asArr ks).all (fun k => !bad ((b.kw.find? (·.1 == nm (asStr k))).bind (slotTag ·.2))) &&
+          (!(asBool star) || b.extra.all (fun a => !bad (argTag a)))
+    | _ => true
+
 /-- `{"lat":…, "fams":[{"layers":[…], "calls":[…]}]}` -> `{"out":[[outcome per call] per family]}`;
+    a family with `"picky"` / `"rejected"` also gets `"final"` (ran / conversion-failed / error) per call;
     with `"op":"sig"`: `{"consts":{"object":n,"vTrue":n}, "sigs":[signature + decorators]}` -> the parameter table
     `Yaql.Signature.define` makes of each;
     with `"op":"hist"`: `{"lat":…, "hists":[history]}` -> `{"out":[[outcome per call step] per history]}`;
@@ -265,6 +291,18 @@ def handle (req : Json) : Json :=
   | _ =>
       jo [("out", jl ((jarr req "fams").map fun f =>
         let layers := (jarr f "layers").map decLayer
-        jl ((jarr f "calls").map fun cj => encOutcome (resolve L layers (decCall cj)))))]
+        if jhas f "picky" then
+          -- the phase after choose_overload (`Yaql.Resolve.callFinal`): `convert` of the listed parameters turns the
+          -- values with the listed tags down
+          let conv := convOf (jarr f "picky") ((jarr f "rejected").map asNat)
+          jl ((jarr f "calls").map fun cj =>
+            let o := resolve L layers (decCall cj)
+            let fin := match (callFinal L conv layers (decCall cj)).2 with
+              | .ran _ _ => "ran" | .conversionFailed _ => "conversion-failed" | .error _ => "error"
+            match encOutcome o with
+            | .obj kvs => .obj (kvs.insert "final" (js fin))
+            | j => j)
+        else
+          jl ((jarr f "calls").map fun cj => encOutcome (resolve L layers (decCall cj)))))]
 
 end Yaql.Drv.Resolve
